@@ -167,3 +167,28 @@ PROPS["C06"] = {
     "assumptions": ["runtime clock starts at 0 and task timers start at registration time"],
     "design_ref": "DESIGN.md section 3, C06",
 }
+
+PROPS["C18"] = {
+    "engine": "c18",
+    "level": "fault_enumeration",
+    "technique": "credential x request-type x configuration enumeration against a real ControlServer on a unix socket with an effect observer (before/after diff of debugger state, probe-runtime variables and I/O, resource commands and state, settings, tokens, pairing data, project files)",
+    "quick": {"shards": 8, "budget_s": 25, "watchdog_s": 400},
+    "thorough": {"shards": 16, "budget_s": 600, "watchdog_s": 3000},
+    "floor": {"quick": 3000, "thorough": 12000},
+    "require_counters": {"quick": {"replies_checked": 3000, "requests_with_effect": 150, "requests_refused": 1000, "malformed_lines_survived": 19},
+                         "thorough": {"replies_checked": 12000}},
+    "rule": "request types are scraped at check time from the working tree (match arms of control/handlers/*.rs plus the literals of the role table and the debug-class "
+            "list) plus unknown/garbled names; x 8 credentials {none, wrong, admin token, pairing viewer/operator/engineer, expired, revoked} x 13 endpoint configs "
+            "{token set/unset x debug on/off x pairing present/absent x control mode} x param variants {plausible (reaches the handler's effect), none, generic fuzz}. "
+            "Thorough enumerates the product completely; quick a shuffled part. distinct = (config, type, variant, credential); non-trivial = the request was "
+            "answered with a parseable reply, i.e. reached the role decision",
+    "level_text": "Every request goes over the socket to the real server; afterwards an observer diffs everything a request could change. Oracle (from observation, not a copy of "
+                  "the role table): a refused request (forbidden/unauthorized/debug disabled) has no effect; allowed(c1) and role(c1)<=role(c2) implies allowed(c2); any type that "
+                  "shows an effect under the admin credential must be refused for the viewer token; with a token configured and no valid credential nothing changes, the reply has "
+                  "only id/ok/error and contains no planted marker; debug-class types (dispatcher files debug.rs/variables.rs) are refused while debugging is disabled; 19 malformed "
+                  "lines each get an error reply and the next valid request is served.",
+    "level_note": "hmi.write is exercised for its role check only (the default HMI customization is read-only, so its effect is never reached). Queued/forced writes are observed by "
+                  "cycling a statement-free probe runtime attached to the same DebugControl. shutdown is observed on a real resource thread held at its start gate.",
+    "assumptions": ["pairing never issues admin tokens (requested admin is capped to engineer) - taken from observation of the store, used only to rank credentials"],
+    "design_ref": "DESIGN.md section 3, C18",
+}
